@@ -9,7 +9,7 @@ def run(chk):
     quick = chk.tier == "quick"
     jobs = c07.make_jobs(chk, 10 if quick else 30)
     jobs = [j for j in jobs if j["id"][0] in "rga"][:6 if quick else 30]     # high-ratio, generated and recorded instances
-    for j in jobs: j["id"] = "c06c:" + j["id"]; j["eps_out_of_range"] = True; j["gym_full"] = True
+    for j in jobs: j["id"] = "c06c:" + j["id"]; j["eps_out_of_range"] = True; j["gym_full"] = True; j["skip_probe"] = True
     res = cl.run_jobs(jobs, nproc=4 if quick else 10)
     insts = []; meta = []
     for j in jobs:
@@ -34,6 +34,21 @@ def run(chk):
             elif vs_ is not None:
                 ghost = [k for k in cnt if k[1] not in vs_.get(k[0], set())]
                 if ghost: chk.violation("compiled-unscheduled-step-executed", f"episode {e}, reset() + max_steps x step(): {ghost[0][0]}[{ghost[0][1]}] is not a vertex of the episode's graph", case)
+        sk = r.get("calls_skip")
+        if sk and "error" in sk: chk.feat("skip-probe:error:" + sk["error"].split(":")[0])
+        elif sk and r.get("calls_gym") and sk.get("max_steps") == r.get("max_steps"):
+            # Graph(skip=[k]) with prefix-related node names: exactly the skipped node's invocations disappear, every other scheduled tick still runs once
+            inv = {v: k for k, v in sk["rename"].items()}
+            for e, cs in enumerate(sk["calls"]):
+                if e >= len(r["calls_gym"]): break
+                chk.traces_impl += 1; chk.feat("skip-probe:compared")
+                got = Counter((inv.get(c[0], c[0]), c[1]) for c in cs)
+                want = Counter((c[0], c[1]) for c in r["calls_gym"][e] if c[0] != sk["skipped"])
+                if got != want:
+                    k0 = sorted(k for k in set(got) | set(want) if got.get(k, 0) != want.get(k, 0))[0]
+                    sig = "compiled-skipped-node-executed" if k0[0] == sk["skipped"] else ("compiled-step-not-executed" if got.get(k0, 0) == 0 else "compiled-step-executed-more-than-once")
+                    chk.violation(sig, f"episode {e}, Graph(skip=['{sk['rename'][sk['skipped']]}']) with node names {sorted(sk['rename'].values())}: {sk['rename'].get(k0[0], k0[0])}[{k0[1]}] "
+                                  f"executed {got.get(k0, 0)} times, without skip {want.get(k0, 0)} times (reset() + max_steps x step())", dict(case, skip=sk["skipped"], rename=sk["rename"]))
         for e, ep in enumerate(r["episodes"]):
             if "rows" not in ep: chk.feat("init_record-unavailable"); continue
             chk.traces_impl += 1
